@@ -185,7 +185,9 @@ fn generate(rng: &mut Rng, deep: bool) -> Scn {
         break;
     }
     let fork = rng.next_u64();
-    if fork % 97 == 0 {
+    // (not for a pair that uses an overshooting easing: hundreds of re-blends under a Back curve
+    // can ratchet a value out of an integer's range - the panic `Lerp` documents)
+    if fork % 97 == 0 && !PAIR_SOURCE[pair % PAIR_COUNT].contains("Back") {
         let mut r = Rng::new(fork ^ 0x6d61_7261_7468_6f6e);
         target_ops = ops.len() + r.range(250, if deep { 4500 } else { 1500 }) as usize;
         tail_rng = Some(r);
